@@ -370,7 +370,7 @@ func init() {
 			{Rule: "COH.rawdesc", Min: 15, Why: "generated files"},
 			{Rule: "COH.legacy", Min: 15, Why: "generated files"},
 			{Rule: "COH.ext", Min: 3, Why: "table, variables and TypeBuilder of the extension-declaring corpus file"},
-			{Rule: "COH.initchain", Min: 4, Why: "same-package imports in testpb, test3 and the corpus"},
+			{Rule: "COH.initchain", Min: 20, Why: "registration of every generated file + same-package imports in testpb, test3 and the corpus"},
 			{Rule: "COH.proto", Min: 6, Why: "six checked-in generated files with a .proto next to them"},
 			{Rule: "COH.gotypes", Min: 15, Why: "generated files"},
 			{Rule: "COH.depidx", Min: 15, Why: "generated files"},
